@@ -6,7 +6,7 @@ CHECKS = {
  # id: (engine, category, technique, level text, level note, design ref)
  'C02': ('icmc', 'model_checking',
          'explicit-state BFS over IBTP block histories on the real executor in lock-step with a reference model',
-         'All block histories up to depth 4 (thorough 5) over 13-25 block kinds (requests/receipts with next/duplicate/future/zero/huge/unknown index on 3 ordered pairs, mixed packing, unrelated txs, direct calls of every public interchain-contract method by an outsider), audit off and on; after every block every receipt verdict, both-side counters, index records and delivery sets are compared with the model.',
+         'All block histories up to depth 4 (thorough 5) over 13-25 block kinds (requests/receipts with next/duplicate/future/zero/huge/unknown index on 4 ordered pairs incl. a service sending to itself, mixed packing, unrelated txs, direct calls of every public interchain-contract method by an outsider), audit off and on; after every block every receipt verdict, both-side counters, index records and delivery sets are compared with the model.',
          'memkv for goleveldb; all proofs valid (C03 covers proofs); 3 service pairs', '5 C02'),
  'C04': ('icmc', 'model_checking',
          'explicit-state BFS over request/receipt/timeout block histories on the real executor against the protocol FSM',
@@ -14,8 +14,8 @@ CHECKS = {
          'memkv for goleveldb; inter-BitXHub notices not in the alphabet yet', '5 C04'),
  'C06': ('icmc', 'model_checking',
          'explicit-state BFS over block histories with timeouts on the real executor against an expiry model',
-         'All block histories up to depth 5 (thorough 7) of requests with T in {0,1,2,(3,huge,-1)}, receipts before/in/after the expiry block, shared expiry heights, begin-failed requests, reopen between H and H+T; per block the timeout notifications and all statuses are compared with the model.',
-         'memkv for goleveldb; one-to-many groups are covered by C05', '5 C06'),
+         'All block histories up to depth 5 (thorough 7) of requests with T in {0,1,2,(3,huge,-1)}, receipts before/in/after the expiry block, shared expiry heights, begin-failed requests, reopen between H and H+T; per block the timeout notifications and all statuses are compared with the model; plus one-to-many groups (2 and 3 children, a later child refused at begin, receipts) with T=2/3: a group is listed as timed out exactly in block H+T of its first accepted child if it neither completed nor failed before.',
+         'memkv for goleveldb; the block carrying a contradicting late receipt of a group is not judged (implementation-defined, see C05)', '5 C06'),
  'C09': ('chainmc', 'model_checking',
          'explicit-state BFS over block/rollback/re-execute/reopen histories on the real executor+ledger with full index re-derivation',
          'All histories up to depth 4 (thorough 6) of block kinds (empty, transfers, interchain, mixed with failing tx, duplicate-looking txs), rollback to head..head-3, re-delivery of the head block, a different block for an existing height, reopen; after every state all heights 1..head, hash links, Merkle roots over stored txs/receipts, every lookup index and the chain meta are re-derived; nothing of removed blocks may resolve.',
@@ -44,7 +44,7 @@ CHECKS = {
 CHECKS.update({
  'C18': ('poolmc', 'model_checking',
          'explicit-state BFS over mempool operation sequences on the real pool in lock-step with a reference model (virtual clock)',
-         'All sequences up to depth 5 (thorough 6) of 20-27 operations (receive as leader/follower, local/remote, slices with out-of-order, duplicate-nonce and conflicting transactions; generate; commit in order / reversed / partial; commit of a block built elsewhere; clock ticks; age eviction; restart; sequence reset) with batch sizes 1,2,3; states deduplicated on a canonical dump of every pool index; every returned batch is checked (consecutive nonces from committed/last batched, not twice, the held object, not below the ledger nonce, size, sequence).',
+         'All sequences up to depth 5 (thorough 6) of 20-27 operations (receive as leader/follower, local/remote, slices with out-of-order, duplicate-nonce and conflicting transactions; generate; commit in order / reversed / partial; commit of a block built elsewhere; clock ticks; age eviction; restart; sequence reset) with batch sizes 1,2,3, and timed mode (blocks cut by GenerateBlock only; 9-transaction account; commits naming all / the first / only the last hash of a batch; depth 9); states deduplicated on a canonical dump of every pool index; every returned batch is checked (consecutive nonces from committed/last batched, not twice, the held object, not below the ledger nonce, size, sequence).',
          'two accounts, nonces 0..3; clock seam by rewriting time.Now() in copies of the pool sources at build time; goroutine interleavings inside commit/evict are not enumerated (fork-join on disjoint indexes)', '5 C18'),
  'C19': ('poolmc', 'model_checking',
          'explicit-state BFS over mempool operation sequences with a state oracle and an exhaustive drain continuation from every state',
@@ -92,13 +92,13 @@ CHECKS.update({
 CHECKS.update({
  'C16': ('govmc', 'model_checking',
          'explicit-state BFS (validated-by-construction abstraction key) over governance operations, IBTP probes and restarts on the real executor against declared lifecycle relations and a gating predicate on stored statuses',
-         'All histories up to depth 6 (thorough 7) of submit freeze/activate/logout on appchain A, service A:s1 and destination service B:s2, conclusion of the open proposal by approval or rejection, requests A:s1->B:s2 and B:s2->A:s1 before/during/after each transition, and node restarts; every observed status change must be an edge of the declared state machine for that trigger or a cascade of the owning appchain, forbidden is absorbing, refused operations change nothing, approved appchain freeze/logout leaves no service usable, and each request is accepted / begin-failed (status + source notified) / rejected without record according to the stored availability of source and destination.',
+         'All histories up to depth 6 (thorough 7) of submit freeze/activate/logout on appchain A, service A:s1 and destination service B:s2, conclusion of the open proposal by approval or rejection, a second independent proposal (registration of a new service A:s4) pending across them, requests A:s1->B:s2, B:s2->A:s1 and A:s4->B:s2 before/during/after each transition, and node restarts; every observed status change must be an edge of the declared state machine for that trigger or a cascade of the owning appchain, forbidden is absorbing, refused operations change nothing, approved appchain freeze/logout leaves no service usable (checked after every step: a frozen or logged-out appchain has no usable service), and each request is accepted / begin-failed (status + source notified) / rejected without record according to the stored availability of source and destination.',
          'declared FSMs and availability sets transcribed into the harness; abstraction merges histories differing only in heights/nonces/ids/counters; rules, roles, nodes are covered by C03/C15/C17', '5 C16'),
 })
 CHECKS.update({
  'C01': ('detmc', 'model_checking',
          'exhaustive deviation-bounded exploration of the real executor: for the last block of every macro-block history, one environment deviation per execution (each dynamic map iteration in each alternative order, each fork-join section in each serial order, restart at every position, cache purge, proof mode, clock shift) with a differential oracle on all block results',
-         'All histories up to depth 3 (thorough 4) over 18 macro blocks (transfers incl. failing, IBTP requests/receipts on three pairs, timeouts expiring together and apart, one-to-many begin/receipts, wasm- and fabric-rule proofs valid/invalid/malformed, governance proposals and votes incl. appchain freeze/logout cascades, strategy update, service update with and without proposal, dapp registration, XVM deploy, invalid signature, unknown method) plus 5 histories right after genesis. The last block of each history is executed on: a replica restarted just before it (reference), the never-restarted replica, replicas restarted before each earlier block, with the account cache purged, with parallel proof verification, with the wall clock shifted, and - one deviation per execution - with every dynamic range-over-map of the executor, contracts, ledger, proof and VM packages in every other order (all permutations up to 4 keys; reversal, rotations, adjacent transpositions above) and every fork-join section in every serial order. Block hash, all roots, parent hash, bloom, every receipt, interchain/timeout/multi-tx metadata and the persisted world state must be identical. The map/fork-join/clock seams are rewritten into copies of the current sources by tools/maprewrite (go/types based) and delivered through the build overlay.',
+         'All histories up to depth 3 (thorough 4) over 18 macro blocks (transfers incl. failing, IBTP requests/receipts on three pairs, timeouts expiring together and apart, one-to-many begin/receipts, wasm- and fabric-rule proofs valid/invalid/malformed, governance proposals and votes incl. appchain freeze/logout cascades, strategy update, service update with and without proposal, dapp registration, XVM deploy, invalid signature, unknown method) plus 5 histories right after genesis. The last block of each history is executed on: a replica restarted just before it (reference), the never-restarted replica, replicas restarted before each earlier block, with the account cache purged, with parallel proof verification, with the wall clock shifted, and - one deviation per execution - with every dynamic range-over-map of the executor, contracts, ledger, proof and VM packages in every other order (all permutations up to 4 keys; reversal, rotations, adjacent transpositions above) and every fork-join section in every serial order. Block hash, all roots, parent hash, bloom, every receipt, interchain/timeout/multi-tx metadata and the persisted world state must be identical (a difference must reproduce in a second execution of the case). Thorough: additionally a free-running pass of the depth-2 histories under the race detector (reports recorded, not deciding). The map/fork-join/clock seams are rewritten into copies of the current sources by tools/maprewrite (go/types based) and delivered through the build overlay.',
          'deviation bound 1 (one map iteration or fork-join section deviates per execution); fork-join bodies run atomically in every serial order (no preemption inside a body); sync.Map.Range and library-internal iteration (json, protobuf: sorted) are not seams; restart = reopen on the persisted data (crash points inside a block are C11); the genesis/BNS restart defect is a known finding', '5 C01'),
 })
 REASON_WIP = 'check not built yet (work in progress; see DESIGN.md section 10)'
